@@ -14,7 +14,9 @@ recomputed from the integrated model's arrays (stocks, parameters, link flows, s
 import math
 import numpy as np
 
-MODELS = ("tb_simple", "udt", "hypertension")
+MODELS = ("tb_simple", "udt", "hypertension")  # library projects with a program book
+TRANSFER_MODEL = "udt_ageing"  # udt framework, two populations and an ageing transfer (built programmatically, no programs): calibration only
+CAL_MODELS = MODELS + (TRANSFER_MODEL,)
 _CACHE = {}
 
 
@@ -37,8 +39,20 @@ def pristine(model):
     key = ("P", model)
     if key not in _CACHE:
         at = at_mod()
-        _CACHE[key] = at.demo(model, do_run=False)
+        _CACHE[key] = _ageing_project(at) if model == TRANSFER_MODEL else at.demo(model, do_run=False)
     return _CACHE[key]
+
+
+def _ageing_project(at):
+    """udt cascade in two populations with a transfer young -> old (ProjectData.new recipe of DESIGN appendix B)"""
+    F = at.ProjectFramework(at.LIBRARY_PATH / "udt_framework.xlsx")
+    D = at.ProjectData.new(F, np.arange(2016, 2021), pops={"young": "Young", "old": "Old"}, transfers={"age": "Ageing"})
+    base = {"all_people": 6000.0, "all_dx": 3600.0, "all_tx": 1800.0, "num_diag": 1000.0, "num_initiate": 490.0, "num_loss": 240.0}
+    for pop, scale in (("young", 1.0), ("old", 0.5)):
+        for q, v in base.items():
+            D.tdve[q].ts[pop].insert(2016, v * scale)
+    D.transfers[0].ts[("young", "old")] = at.TimeSeries(t=[2016], vals=[0.05], units="probability")
+    return at.Project(framework=F, databook=D, do_run=False)
 
 
 def fresh(model, settings):
@@ -50,7 +64,7 @@ def fresh(model, settings):
     if settings.get("shift"):
         # the start year is moved on its own afterwards (Project.update_settings(sim_start=...)): the end year is then no longer start + k*dt
         P.settings.update_time_vector(start=float(settings["start"]) + float(settings["shift"]))
-    return P, P.parsets[0], P.progsets[0]
+    return P, P.parsets[0], (P.progsets[0] if len(P.progsets) else None)
 
 
 def grid_size(start, end, dt):
@@ -69,11 +83,11 @@ def catalogue():
         return _CACHE["cat"]
     at = at_mod()
     cat = {}
-    for name in MODELS:
+    for name in CAL_MODELS:
         P = pristine(name)
-        pg, ps = P.progsets[0], P.parsets[0]
+        pg, ps = (P.progsets[0] if len(P.progsets) else None), P.parsets[0]
         F = P.framework
-        m = at.Model(P.settings, F, ps, pg, at.ProgramInstructions(start_year=2018.0))
+        m = at.Model(P.settings, F, ps, pg, at.ProgramInstructions(start_year=2018.0) if pg is not None else None)
         pop = m.pops[0]
         links = sorted(set((l.source.name, l.dest.name) for l in pop.links))
         data = []
@@ -90,8 +104,9 @@ def catalogue():
             "pars": list(F.pars.index),
             "flows": [k for k in pop.link_lookup.keys()],
             "links": ["%s:%s" % l for l in links] + [":" + d for d in sorted(set(l[1] for l in links))] + [s + ":" for s in sorted(set(l[0] for l in links))],
-            "progs": [(p.name, float(p.spend_data.vals[0])) for p in pg.programs.values()],
+            "progs": [(p.name, float(p.spend_data.vals[0])) for p in pg.programs.values()] if pg is not None else [],
             "ypars": list(ps.pars.keys()),
+            "transfers": [("%s_from_%s" % (code, src), dst) for code, by_src in ps.transfers.items() for src, par in by_src.items() for dst in par.y_factor.keys()],
             "data": data,
         }
     _CACHE["cat"] = cat
@@ -217,7 +232,7 @@ def own_quantity(model, name, tspec, pops):
     """documented total of one quantity (no weight, no threshold)"""
     mask = time_mask(model.t, tspec)
     if name in model.progset.programs:
-        return float(sum(own_spend(model.progset, model.program_instructions, name, t) for t in np.asarray(model.t)[mask]))
+        return float(np.sum(np.array([own_spend(model.progset, model.program_instructions, name, t) for t in np.asarray(model.t)[mask]], dtype=float)))
     total = 0.0
     found = False
     for pop in model.pops:
@@ -234,19 +249,46 @@ def own_quantity(model, name, tspec, pops):
     return total
 
 
+HARD = ("atmost", "atleast", "incby", "decby")
+
+
+def target_state(m, q):
+    """(violated, borderline) of a hard target spec for the quantity value q.
+    atmost / atleast: q against m['threshold'].  decby / incby: q against the value m['base'] of the same quantity under the caller's
+    original instructions: a decrease by the fraction d is met when q <= base*(1-d) (abs: q <= base-d), an increase by i when
+    q >= base*(1+i) (abs: q >= base+i); quantities are non-negative, so relative to a baseline of exactly 0 a decrease target is met
+    only by q == 0 and an increase target by every q.  borderline = the comparison can round either way (own product vs the code's quotient)."""
+    c = m["cls"]
+    if c in ("atmost", "atleast"):
+        need, exact = m["threshold"], True
+        violated = q > need if c == "atmost" else q < need
+    else:
+        base, a, frac = m["base"], float(m["amount"]), m["target_type"] == "frac"
+        sign = 1.0 if c == "incby" else -1.0
+        if frac and base == 0:
+            return ((q > 0) if c == "decby" else False), False
+        need = base * (1.0 + sign * a) if frac else base + sign * a
+        exact = (not frac) or a == 0
+        violated = q < need if c == "incby" else q > need
+    near = abs(q - need) <= 1e-12 * max(1.0, abs(need))
+    return bool(violated), bool(near and (q != need or not exact))
+
+
 def own_term(model, m, value=None):
-    """objective contribution of one measurable spec m = {cls, name, t, pops, thr}"""
+    """objective contribution of one measurable spec m = {cls, name, t, pops, threshold | base+amount+target_type}"""
     v = own_quantity(model, m["name"], m["t"], m.get("pops")) if value is None else value
     c = m["cls"]
     if c == "min":
         return v
     if c == "max":
         return -v
-    if c == "atmost":
-        return math.inf if v > m["threshold"] else 0.0
-    if c == "atleast":
-        return math.inf if v < m["threshold"] else 0.0
+    if c in HARD:
+        return math.inf if target_state(m, v)[0] else 0.0
     raise ValueError(c)
+
+
+def any_borderline(model, meas):
+    return any(m["cls"] in HARD and target_state(m, own_quantity(model, m["name"], m["t"], m.get("pops")))[1] for m in meas)
 
 
 def own_objective(model, meas):
